@@ -96,6 +96,45 @@ Section HmmThm.
     rewrite (sumL_map_ext _ (fun x => (/ marginal K pi0 A E rys) * alpha rys x)) by (intros; field; exact Hz).
     rewrite sumL_map_scale, <- sumK_as_sumL. fold (marginal K pi0 A E rys). field. exact Hz.
   Qed.
+  (** the iterative (vector per step) recursion computes the same messages *)
+  Definition avec (rys : list nat) : list Qc := map (alpha rys) (seq 0 K).
+
+  Lemma nth_avec rys x : In x (seq 0 K) -> nth x (avec rys) 0 = alpha rys x.
+  Proof.
+    intros Hx. apply in_seq in Hx. unfold avec.
+    rewrite (nth_indep _ 0 (alpha rys 0)) by (rewrite map_length, seq_length; lia).
+    rewrite map_nth, seq_nth by lia. reflexivity.
+  Qed.
+
+  Lemma step_vec_avec rys y : rys <> [] -> step_vec K A E (avec rys) y = avec (y :: rys).
+  Proof.
+    intros Hne. unfold step_vec, avec. apply map_ext_in. intros x' _.
+    destruct rys as [|y' rest]; [congruence|].
+    change (alpha (y :: y' :: rest) x') with (E x' y * sumK (fun x => alpha (y' :: rest) x * A x x')).
+    f_equal. rewrite !sumK_as_sumL. apply sumL_map_ext. intros x Hx.
+    fold (avec (y' :: rest)). rewrite nth_avec by exact Hx. reflexivity.
+  Qed.
+
+  Lemma fold_step_avec : forall ys rys, rys <> [] ->
+      fold_left (step_vec K A E) ys (avec rys) = avec (rev ys ++ rys).
+  Proof.
+    induction ys as [|y ys IH]; intros rys Hne; cbn [fold_left rev app]; [reflexivity|].
+    rewrite step_vec_avec by exact Hne. rewrite IH by discriminate.
+    rewrite <- app_assoc. reflexivity.
+  Qed.
+
+  Theorem alpha_vec_correct ys : ys <> [] -> alpha_vec K pi0 A E ys = avec (rev ys).
+  Proof.
+    destruct ys as [|y0 ys]; [congruence|]. intros _. unfold alpha_vec.
+    change (map (fun x => E x y0 * pi0 x) (seq 0 K)) with (avec [y0]).
+    rewrite fold_step_avec by discriminate. cbn [rev]. reflexivity.
+  Qed.
+
+  Theorem marginal_vec_correct ys : ys <> [] -> marginal_vec K pi0 A E ys = marginal K pi0 A E (rev ys).
+  Proof.
+    intros H. unfold marginal_vec, marginal. rewrite alpha_vec_correct by exact H.
+    rewrite sumK_as_sumL. reflexivity.
+  Qed.
 End HmmThm.
 
 Section Ffbs.
